@@ -1,6 +1,7 @@
 """Shared body of the history-based checks (C01, C02, C03, C06, C07, C10, C11): Hypothesis-generated histories
 run through lockstep.Lockstep; the module-specific parts are the operation profile, extra per-step invariants
 and the rule that says which histories count as non-trivial."""
+import os
 import shutil
 
 from hypothesis import strategies as st
@@ -55,6 +56,13 @@ def summarize(ops, limit=12):
 def make_run_shard(profile, classify, hooks=(), bulk_share=0.0, max_ops_quick=25, max_ops_thorough=60, pre=(), post=(), configs=None):
     def run_shard(spec, ctx):
         acc = ctx.acc
+        # every third shard runs with a local time zone that is not UTC (all generated times are aware, so the zone of the
+        # process must not matter to anything the database stores or returns)
+        import time as _time
+
+        os.environ["TZ"] = "Asia/Kolkata" if ctx.shard_index % 3 == 1 else "UTC"
+        _time.tzset()
+        acc.cls("local_tz_" + os.environ["TZ"])
         max_ops = spec.get("max_ops", max_ops_quick)
         strat = gen_ops.history(spec.get("profile", profile), max_ops)
         if spec.get("bulk"):
